@@ -150,7 +150,7 @@ PROPS["C06"] = {
              "truncated at any byte; wrong methods; zero/unsupported/multiple versions; wrong or missing Upgrade/Connection tokens; malformed request or status lines; oversized blocks; bare LF, "
              "folding, NUL, 8-bit; binary noise; single-byte mutations of valid exchanges; pipelined following bytes) and feeds the same bytes to the real handshake code under 4 segmentations "
              "(coalesced, byte-at-a-time, random cuts, cuts near line ends); non-trivial = all four outcomes obtained and judged; distinct = schedule shapes"),
-    "probes": ["established", "refused"],
+    "probes": ["established", "refused", "runs_with_an_earlier_connection"],
     "technique": "deterministic simulation: grammar+mutation inputs x driver-chosen segmentations against the real handshake code; acceptance model, metamorphic equality across segmentations, process survival",
     "level_text": ("Seeded exploration of the unbounded input space with three oracles: (1) a session is established iff the input was built as VALID (for ambiguous inputs: established implies an "
                    "independent 40-line parser accepts it), and the bytes following a valid handshake reach the next layer unaltered; (2) established flag, status/request lines written and the next-layer bytes "
